@@ -83,7 +83,7 @@ bool has_edge(const GraphBuilder &gb, int src, int dst) {
 
 extern "C" int harness_main() {
     choose_base(P);
-    choose_extra(P, X_COUNT_ALL);
+    choose_extra(P, X_COUNT_ALL, false);
 
     bool threw = false;
     GraphBuilder gb;
